@@ -113,6 +113,9 @@ def dirty_probes(ctx, stg):
 
 def run(ctx):
     dirty_probes(ctx, common.build_stg())
+    # stack arrangement x kind of local change x command, judged on the real repository
+    from . import dirtmatrix
+    dirtmatrix.check(ctx, common.build_stg(), "C10", "c10m")
     histcheck.run_property(ctx, PROFILES, ORACLES, n_quick=56, n_thorough=900, nsteps=32 if ctx.quick() else 45,
                            own_oracle="c10",
                            extra_trusted=["merge-recursive's refusal to overwrite locally modified files during the "
@@ -123,6 +126,9 @@ def run(ctx):
 def replay(ctx, path):
     import json
     doc = json.load(open(path))
+    if str(doc.get("obligation", "")).endswith("dirt-matrix"):
+        from . import dirtmatrix
+        return dirtmatrix.replay(ctx, doc)
     if str(doc.get("obligation", "")).startswith("direct-oracle:C10:dirty-probe"):
         dirty_probes(ctx, common.build_stg())
         print("dirty probes: %d violation(s)" % len(ctx.violations))
